@@ -179,6 +179,40 @@ for nm, noexc in (('get', False), ('get_noexcept', True)):
         harness='void harness(void) { const struct VectorBasedSparseMap* m; TId id; VectorBasedSparseMap_%s(m, id); __CPROVER_assert(0, "canary"); }' % nm,
         replay=('c12_index', lambda cex, o: ['search']), note='relative to the std::lower_bound contract; ids and values 64-bit; any vector length up to 10^6'))
 
+# ---- mmap_vector_base (DenseMmapArray / DenseFileArray): growth keeps what is there and fills what is new with the empty value -------------------------
+MMV = 'include/osmium/index/detail/mmap_vector_base.hpp'
+MMV_PRELUDE = '''
+typedef uint64_t T; typedef T value_type;
+#define VERIF_EMPTY_VALUE_NZ ((T)0x7fffffff7fffffffULL)   /* empty_value<Location>() is the undefined location, NOT zero bytes: fresh pages of a mapping must be filled */
+struct TypedMemoryMapping { T* ptr; size_t n; };
+struct mmap_vector_base { size_t m_size; struct TypedMemoryMapping m_mapping; };
+size_t ghost_g; T ghost_v;   /* ghost: an arbitrary element position and the value stored there before the operation */
+size_t ghost_k;              /* ghost: an arbitrary position of the range handed to std::fill */
+/* TypedMemoryMapping::resize (mremap / ftruncate + mmap): the mapping may move; old elements keep their values, NEW elements hold whatever the kernel or the file provides */
+void Mapping_resize(struct TypedMemoryMapping* m, size_t new_n) __CPROVER_requires(__CPROVER_rw_ok(m, sizeof(*m)) && new_n >= m->n && new_n <= (1u << 27) && (ghost_g >= m->n || m->ptr[ghost_g] == ghost_v))
+  __CPROVER_assigns(m->ptr, m->n) __CPROVER_ensures(m->n == new_n && __CPROVER_is_fresh(m->ptr, new_n * sizeof(T)) && (ghost_g >= __CPROVER_old(m->n) || m->ptr[ghost_g] == ghost_v));
+/* std::fill (C++ standard), stated for the observed position of the range */
+void verif_fill(T* first, T* last, T v) __CPROVER_requires(__CPROVER_same_object(first, last) && first <= last && __CPROVER_rw_ok(first, (size_t)(last - first) * sizeof(T)))
+  __CPROVER_assigns(__CPROVER_object_upto(first, (size_t)(last - first) * sizeof(T))) __CPROVER_ensures(ghost_k >= (size_t)(last - first) || first[ghost_k] == v);
+'''
+U_mcap = Unit(MMV, 'capacity', cls='mmap_vector_base', selftype='const struct mmap_vector_base', pre=[(r'm_mapping\.size\(\)', 'm_mapping.n')])
+U_mdata = Unit(MMV, 'data', cls='mmap_vector_base', sig=r'pointer data\(\)', nth=1, ret='T*', pre=[(r'm_mapping\.begin\(\)', 'm_mapping.ptr')])
+U_mres = Unit(MMV, 'reserve', cls='mmap_vector_base',
+              pre=[(r'm_mapping\.resize\(new_capacity\);', 'Mapping_resize(&m_mapping, new_capacity);'), (r'std::fill\(', 'verif_fill('), (r'osmium::index::empty_value<value_type>\(\)', 'VERIF_EMPTY_VALUE_NZ')])
+PIPELINES.append(Pipeline('U7_mmap_vector_reserve', units=[U_mcap, U_mdata, U_mres], prelude=MMV_PRELUDE, contracts={'mmap_vector_base_reserve': [
+    ('pre:a mapping of any size; one element before and one position after the old end are observed', 'requires',
+     '__CPROVER_is_fresh(self, sizeof(*self)) && self->m_mapping.n >= 1 && self->m_mapping.n <= (1u << 26) && new_capacity <= (1u << 27) && __CPROVER_is_fresh(self->m_mapping.ptr, self->m_mapping.n * sizeof(T)) && '
+     'self->m_size <= self->m_mapping.n && (ghost_g >= self->m_mapping.n || self->m_mapping.ptr[ghost_g] == ghost_v) && ghost_k < (1u << 27)'),
+    ('post:the capacity is at least what was asked for and never shrinks; the size is untouched', 'ensures',
+     'self->m_mapping.n >= new_capacity && self->m_mapping.n >= __CPROVER_old(self->m_mapping.n) && self->m_size == __CPROVER_old(self->m_size)'),
+    ('post:every element that was there keeps its value', 'ensures', 'ghost_g >= __CPROVER_old(self->m_mapping.n) || self->m_mapping.ptr[ghost_g] == ghost_v'),
+    ('post:every new element holds the empty value (ids in the grown region that were never set must read as "not found", in memory and in the backing file)', 'ensures',
+     '__CPROVER_old(self->m_mapping.n) + ghost_k >= self->m_mapping.n || self->m_mapping.ptr[__CPROVER_old(self->m_mapping.n) + ghost_k] == VERIF_EMPTY_VALUE_NZ'),
+    ('frame', 'assigns', 'self->m_mapping.ptr, self->m_mapping.n, __CPROVER_object_whole(self->m_mapping.ptr)')]},
+    replace=['Mapping_resize', 'verif_fill'], enforce='mmap_vector_base_reserve',
+    harness='void harness(void) { struct mmap_vector_base* v; size_t n; mmap_vector_base_reserve(v, n); __CPROVER_assert(0, "canary"); }', noflags=['--conversion-check'],
+    replay=('c12_index', lambda cex, o: ['mmapgrow']), note='element type 64 bit; relative to contracts of the memory mapping and std::fill'))
+
 TRUSTED = ['std::vector / mmap_vector resize fills new slots with the empty value', 'std::lower_bound on a sorted vector', 'emplace_back / the dense block store as abstracted by the ghost view (assumed contracts)']
 ASSUMPTIONS = ['dense vector maps of at most 2^24 slots in the model (object-size bound; no loop depends on it)']
 NOT_DECIDED = ['file-backed persistence, real mremap', 'switch_to_dense loop body, assure_block', 'NodeLocationsForWays', 'dump_as_array']
